@@ -218,13 +218,15 @@ package base
 
 // maximum of one event over the buckets of the window (0 if none)
 //@ func (m *SlidingWindowMetric) GetMaxOfSingleBucket(event) r
+//@   pure
 //@   props C08
 //@   requires viewOK(m) && validEvent(event) && bucketsOK(m.real.data, event)
 //@   ensures[upper] forall i Int :: 0 <= i && i < m.real.data.array.length && clock_ms > 0 && live(m.real.data, clock_ms, m.real.data.array.data[i]) && inWindow(m, clock_ms, m.real.data.array.data[i].BucketStart) ==> bucketOf(m.real.data.array.data[i]).counter[event] <= r
+//@   ensures[nonneg] r >= 0
 //@   ensures[attained] r == 0 || (exists i Int :: 0 <= i && i < m.real.data.array.length && live(m.real.data, clock_ms, m.real.data.array.data[i]) && inWindow(m, clock_ms, m.real.data.array.data[i].BucketStart) && bucketOf(m.real.data.array.data[i]).counter[event] == r)
 //@   modifies nothing
 //@   loop 1:
-//@     invariant[upper] forall j Int :: 0 <= j && j < #i ==> bucketOf(satisfiedBuckets[j]).counter[event] <= curMax
+//@     invariant[upper] curMax >= 0 && (forall j Int :: 0 <= j && j < #i ==> bucketOf(satisfiedBuckets[j]).counter[event] <= curMax)
 //@     invariant[attained] curMax == 0 || (exists j Int :: 0 <= j && j < #i && bucketOf(satisfiedBuckets[j]).counter[event] == curMax)
 
 // ---- P2 placement (one thread): mapping a time to its slot and refreshing stale slots
@@ -301,3 +303,18 @@ package base
 //@   ensures[credited] bucketOf(cur).counter[event] == (old(cur.BucketStart) == start ? old(bucketOf(cur).counter[event]) : 0) + count
 //@   ensures[same-bucket-others] forall e Int :: validEvent(e) && e != event ==> bucketOf(cur).counter[e] == (old(cur.BucketStart) == start ? old(bucketOf(cur).counter[e]) : 0)
 //@   ensures[other-slots] forall i Int :: 0 <= i && i < la.array.length && i != idx && la.array.data[i] != nil ==> la.array.data[i] == old(la.array.data[i]) && la.array.data[i].BucketStart == old(la.array.data[i].BucketStart) && (forall e Int :: validEvent(e) ==> bucketOf(la.array.data[i]).counter[e] == old(bucketOf(la.array.data[i]).counter[e]))
+
+// ---- P3: a view can only be constructed over an array it tiles
+//@ func NewSlidingWindowMetric(sampleCount, intervalInMs, real) (m, err)
+//@   props C08
+//@   requires base.IllegalStatisticParamsError != nil && base.IllegalGlobalStatisticParamsError != nil && base.GlobalStatisticNonReusableError != nil && base.IllegalStatisticParamsError != base.GlobalStatisticNonReusableError && base.IllegalGlobalStatisticParamsError != base.GlobalStatisticNonReusableError
+//@   ensures[only-valid] err == nil <==> (real != nil && tiles(sampleCount, intervalInMs, real.data.sampleCount, real.data.intervalInMs))
+//@   ensures[xor] (m == nil) <==> (err != nil)
+//@   ensures[geometry] err == nil ==> fresh(m) && m.real == real && m.sampleCount == sampleCount && m.intervalInMs == intervalInMs && m.bucketLengthInMs * sampleCount == intervalInMs
+//@   modifies nothing
+
+// reads used by core/stat: functions of the recorded history (their value is what C08's selection/aggregation
+// clauses determine); no effect on contract-visible state
+//@ func (m *SlidingWindowMetric) GetSum(event) r
+//@   pure
+//@   assumed
